@@ -10,6 +10,7 @@ import (
 	"os/exec"
 	"path/filepath"
 	"runtime"
+	"runtime/debug"
 	"sort"
 	"strconv"
 	"strings"
@@ -158,7 +159,7 @@ func runWorker(ck *Check, tier Tier, w, n int, out, journal, skip string) (code 
 	defer func() {
 		if r := recover(); r != nil {
 			if _, ok := r.(HarnessError); !ok {
-				fmt.Fprintf(os.Stderr, "worker %d: panic: %v\n", w, r)
+				fmt.Fprintf(os.Stderr, "worker %d: panic: %v\n%s\n", w, r, debug.Stack())
 				e.Stats.HarnessErrors = append(e.Stats.HarnessErrors, fmt.Sprint(r))
 			}
 			code = exitWorkerErr
